@@ -247,6 +247,112 @@ fn run_case(c: &mut Case, r: &mut Rng, model: &mut model::Model, rep: &mut Repor
     }
 }
 
+/// chains of definitions: `v` = body over the base tables, `v2` = mid over `v`, outer over `v2`,
+/// spelled as view over view, CTE over CTE, CTE over view, nested derived tables, and with an
+/// unused CTE in front; all must agree with the model's `evalChain` (theorems C32_chain_unfold,
+/// C32_unused_definition, C32_star_over_definition)
+fn run_chain_case(r: &mut Rng, quick: bool, model: &mut model::Model, rep: &mut Report) {
+    let dbd = gen_db(r, 3, if quick { 8 } else { 20 });
+    let body = { let g = QGen { db: &dbd, subqueries: false, force_from: None }; g.gen_core(r, false) };
+    let unq = r.chance(1, 4);
+    let mk = |d: &DbDef, name: &str, c: &Core| {
+        let mut d2 = d.clone();
+        let cols = c.out_tys(d).iter().enumerate().map(|(i, t)| (format!("o{}", i), *t)).collect();
+        d2.tables.push(TableDef { schema: Schema { table: name.into(), cols }, rows: vec![] });
+        d2
+    };
+    let db2 = mk(&dbd, "v", &body);
+    let star_mid = r.chance(1, 4);
+    let mid = if star_mid {
+        Core { from: From::Table(3), where_: None, group: None, select: (0..db2.tables[3].schema.cols.len()).map(E::Col).collect(), distinct: false, order_by: vec![], limit: None, offset: 0 }
+    } else {
+        let g = QGen { db: &db2, subqueries: false, force_from: Some(From::Table(3)) };
+        g.gen_core(r, false)
+    };
+    let db3 = mk(&db2, "v2", &mid);
+    let outer = { let g = QGen { db: &db3, subqueries: false, force_from: Some(From::Table(4)) }; g.gen_core(r, true) };
+    UNQUALIFIED.with(|u| u.set(unq));
+    let body_sql = body.sql(&dbd);
+    let mut mid_sql = mid.sql(&db2);
+    if star_mid {
+        let at = mid_sql.find(" FROM ").unwrap();
+        mid_sql = format!("SELECT *{}", &mid_sql[at..]);
+    }
+    let outer_sql = outer.sql(&db3);
+    UNQUALIFIED.with(|u| u.set(false));
+    let case_id = format!("chain {} {} {} {}", dbd.sx(), body.sx(), mid.sx(), outer.sx());
+    let mut db = Db::new();
+    dbd.load(&mut db);
+    let c1 = format!("CREATE VIEW v AS {}", body_sql);
+    let c2 = format!("CREATE VIEW v2 AS {}", mid_sql);
+    let script = format!("{}{};\n{};\n", dbd.script(), c1, c2);
+    let o1 = db.exec(&c1);
+    let o2 = if o1.is_ok() { db.exec(&c2) } else { o1.clone() };
+    if !o1.is_ok() || !o2.is_ok() {
+        rep.case(&case_id, false);
+        rep.count("chain_create_view_rejected");
+        if o1.is_panic() || o2.is_panic() {
+            rep.fail(FailKind::Oracle, None, "CREATE VIEW panicked", &format!("{} => {} / {}", script, o1.brief(), o2.brief()));
+        }
+        return;
+    }
+    rep.case(&case_id, true);
+    rep.count("chain_case");
+    if star_mid {
+        rep.count("chain_second_definition_is_select_star");
+    }
+    let nested_mid = replace_table_token(&mid_sql, "v", &format!("({}) AS v", body_sql));
+    let spellings = vec![
+        ("view over view", outer_sql.clone()),
+        ("cte over cte", format!("WITH v AS ({}), v2 AS ({}) {}", body_sql, mid_sql, outer_sql)),
+        ("cte over view", format!("WITH v2 AS ({}) {}", mid_sql, outer_sql)),
+        ("nested derived tables", replace_table_token(&outer_sql, "v2", &format!("({}) AS v2", nested_mid))),
+        ("unused cte in front", format!("WITH zz AS ({}) {}", body_sql, outer_sql)),
+    ];
+    let req = format!("chain {} ({} {}) {}", dbd.sx(), body.sx(), mid.sx(), outer.sx());
+    let m = parse_ref(&model.ask(&req));
+    let outs: Vec<(&str, String, Out)> = spellings.into_iter().map(|(n, q)| { let o = db.query(&q); (n, q, o) }).collect();
+    let replay = || {
+        let mut s = script.clone();
+        for (n, q, o) in &outs {
+            s.push_str(&format!("-- {}\n{};\n  => {}\n", n, q, o.brief()));
+        }
+        s.push_str(&format!("-- model request: {}\n-- model: {:?}", req, m.as_ref().map(|r| (r.det, r.rows.clone()))));
+        s
+    };
+    for (n, _, o) in &outs {
+        if o.is_panic() {
+            rep.fail(FailKind::Oracle, None, &format!("engine panicked on the {} spelling", n), &replay());
+            return;
+        }
+    }
+    let n_err = outs.iter().filter(|x| x.2.is_err()).count();
+    if n_err == outs.len() {
+        rep.count("chain_all_rejected");
+        return;
+    }
+    if n_err > 0 {
+        rep.fail(FailKind::Oracle, None, "chain of definitions: one spelling is rejected while another is answered", &replay());
+        return;
+    }
+    rep.traces_validated += 1;
+    let limited = outer.limit.is_some() || outer.offset > 0;
+    match &m {
+        Ok(mr) => {
+            for (n, _, o) in &outs {
+                match compare_with_ref(o.rows().unwrap(), mr, &outer.order_by, limited) {
+                    Ok(kind) => rep.count(&format!("chain_{}", kind)),
+                    Err(what) => {
+                        rep.fail(FailKind::Oracle, None, &format!("chain of definitions, {} spelling: {}", n, what), &replay());
+                        return;
+                    }
+                }
+            }
+        }
+        Err(e) => rep.fail(FailKind::ModelDiff, None, &format!("model rejects a chain the engine answers: {}", e), &replay()),
+    }
+}
+
 /// deterministic probes (minimised past failure, fixed b16cfa2c): wildcard definitions in the
 /// three spellings, empty and non-empty, with a second CTE over the first
 fn star_probes(rep: &mut Report) {
@@ -291,6 +397,10 @@ fn main() {
     let n = args.n(500, 15000);
     for i in 0..n {
         let mut r = rng.fork();
+        if i % 5 == 3 {
+            run_chain_case(&mut r, args.quick(), &mut model, &mut rep);
+            continue;
+        }
         let dbd = gen_db(&mut r, 3, if args.quick() { 8 } else { 20 });
         let mut body = { let g = QGen { db: &dbd, subqueries: false, force_from: None }; g.gen_core(&mut r, false) };
         let mut star = None;
